@@ -129,5 +129,239 @@ func RunTrace(c *core.Ctx, job TraceJob) (bad []json.RawMessage, ok bool) {
 			*job.Diffs = append(*job.Diffs, outs[s].rep.Diffs...)
 		}
 	}
+	if ok {
+		if !bindingSelfTest(c, job, bad) {
+			ok = false
+		}
+	}
 	return bad, ok
+}
+
+// ---- binding self-test ----
+//
+// A trace specification that accepted everything would make the whole check
+// vacuous. After every successful validation a handful of the records the
+// specification just ACCEPTED are corrupted in one recorded field (a column, a
+// verdict, a text, a link list ...) and validated again: the specification must
+// reject every one of them. Anything else is a failure of the machinery
+// (internal error, exit 2), never a verdict about the library.
+
+// corrupters: per trace module, change one recorded field of a case so that
+// the case must be rejected; false = this case offers nothing to corrupt.
+var corrupters = map[string]func(rec map[string]any) bool{
+	"Lexer_Trace": func(r map[string]any) bool {
+		toks, _ := r["toks"].([]any)
+		if len(toks) == 0 {
+			return false
+		}
+		t := toks[0].(map[string]any)
+		t["c"] = t["c"].(float64) + 1
+		return true
+	},
+	"Positions_Trace": func(r map[string]any) bool {
+		if pos, _ := r["pos"].([]any); len(pos) > 0 {
+			p := pos[len(pos)/2].(map[string]any)
+			p["c"] = p["c"].(float64) + 1
+			return true
+		}
+		if locs, _ := r["locs"].([]any); len(locs) > 0 {
+			l := locs[0].(map[string]any)
+			l["l"] = l["l"].(float64) + 100000
+			return true
+		}
+		return false
+	},
+	"QueryGrammar_Trace":  flipBool("ok"),
+	"SchemaGrammar_Trace": flipBool("ok"),
+	"Rules_Trace":         flipBool("errs"),
+	"Coerce_Trace":        flipBool("ok"),
+	"Links_Trace": func(r map[string]any) bool {
+		if l, _ := r["links"].([]any); len(l) > 0 {
+			r["links"] = []any{}
+			return true
+		}
+		return false
+	},
+	"TypeSystem_Trace": func(r map[string]any) bool {
+		vs, _ := r["variants"].([]any)
+		if len(vs) == 0 {
+			return false
+		}
+		v := vs[len(vs)-1].(map[string]any)
+		v["ok"] = !v["ok"].(bool)
+		return true
+	},
+	"Printer_Trace": func(r map[string]any) bool {
+		if rp, _ := r["reparsed"].(bool); !rp {
+			return false
+		}
+		t2, _ := r["t2"].([]any)
+		r["t2"] = append(t2, float64(120))
+		return true
+	},
+	"Total_Trace": func(r map[string]any) bool {
+		outs, _ := r["outs"].([]any)
+		for _, o := range outs {
+			t := o.([]any)
+			if len(t) >= 3 && t[1].(float64) == 1 && t[2].(float64) == 0 {
+				t[1] = float64(0) // a nil error without a document
+				return true
+			}
+		}
+		return false
+	},
+	"Total2_Trace": func(r map[string]any) bool {
+		if r["kind"] == "load" {
+			r["okxorerr"] = false
+			return true
+		}
+		steps, _ := r["steps"].([]any)
+		if n, _ := r["nodes"].(float64); len(steps) > 0 && n <= 150 {
+			steps[0] = float64(2000000000) // far beyond any polynomial in 150 nodes
+			return true
+		}
+		return false
+	},
+	"TokenLimit_Trace": func(r map[string]any) bool {
+		if _, ok := r["ok"].(bool); !ok {
+			return false
+		}
+		r["ok"] = !r["ok"].(bool)
+		return true
+	},
+	"Determinism_Trace": func(r map[string]any) bool {
+		obs, _ := r["obs"].([]any)
+		if len(obs) < 2 {
+			return false
+		}
+		o := obs[len(obs)-1].(map[string]any)
+		errs, _ := o["errs"].([]any)
+		if len(errs) > 0 {
+			o["errs"] = errs[:len(errs)-1]
+		} else {
+			o["errs"] = []any{map[string]any{"rule": "X", "msg": "x", "locs": []any{}, "file": ""}}
+		}
+		return true
+	},
+	"Shared_Trace": func(r map[string]any) bool { r["races"] = float64(1); return true },
+	"Compose_Trace": func(r map[string]any) bool {
+		sets, _ := r["sets"].([]any)
+		for _, x := range sets {
+			st := x.(map[string]any)
+			if errs, _ := st["errs"].([]any); len(errs) > 0 {
+				st["errs"] = errs[:len(errs)-1]
+				return true
+			}
+		}
+		return false
+	},
+	"JsonCodec_Trace": func(r map[string]any) bool {
+		if a, _ := r["after"].([]any); len(a) > 0 {
+			r["after"] = a[:len(a)-1]
+			return true
+		}
+		return false
+	},
+	"Errors_Trace": func(r map[string]any) bool { r["msgLen"] = float64(0); return true },
+}
+
+func flipBool(field string) func(map[string]any) bool {
+	return func(r map[string]any) bool {
+		b, ok := r[field].(bool)
+		if !ok {
+			return false
+		}
+		r[field] = !b
+		return true
+	}
+}
+
+func bindingSelfTest(c *core.Ctx, job TraceJob, bad []json.RawMessage) bool {
+	corrupt := corrupters[job.Module]
+	if corrupt == nil {
+		c.Internal("%s: no binding self-test registered for this trace specification", job.Module)
+		return false
+	}
+	rejected := map[float64]bool{}
+	for _, raw := range bad {
+		var b struct {
+			ID float64 `json:"id"`
+		}
+		json.Unmarshal(raw, &b)
+		rejected[b.ID] = true
+	}
+	var lines [][]byte
+	want := map[float64]bool{}
+	step := len(job.Lines)/6 + 1
+	for i := 0; i < len(job.Lines) && len(lines) < 6; i += step {
+		for k := i; k < len(job.Lines) && k < i+step; k++ {
+			var rec map[string]any
+			if json.Unmarshal(job.Lines[k], &rec) != nil {
+				continue
+			}
+			id, _ := rec["id"].(float64)
+			if rejected[id] || want[id] || !corrupt(rec) {
+				continue
+			}
+			b, _ := json.Marshal(rec)
+			lines = append(lines, b)
+			want[id] = true
+			break
+		}
+	}
+	if len(lines) == 0 {
+		c.AddExtraInt("binding_selftest_skipped_"+job.Module, 1)
+		return true
+	}
+	dir, err := os.MkdirTemp("", "verif-selftest-")
+	if err != nil {
+		c.Internal("%s self-test: %v", job.Module, err)
+		return false
+	}
+	defer os.RemoveAll(dir)
+	tf, rf := filepath.Join(dir, "trace.ndjson"), filepath.Join(dir, "report.ndjson")
+	var buf bytes.Buffer
+	if job.Header != nil {
+		buf.Write(job.Header)
+		buf.WriteByte('\n')
+	}
+	for _, l := range lines {
+		buf.Write(l)
+		buf.WriteByte('\n')
+	}
+	os.WriteFile(tf, buf.Bytes(), 0o644)
+	r, err := tlc.Run(tlc.Opts{Module: job.Module, CfgText: job.CfgText, Workers: 1, Stack: job.Stack, Heap: job.Heap,
+		Timeout: job.Timeout, Extra: job.Extra, Env: []string{"VERIF_TRACE=" + tf, "VERIF_REPORT=" + rf}})
+	defer tlc.Cleanup(r)
+	if err != nil || r.Violation {
+		// a corrupted record may also be one TLC cannot evaluate: that is a rejection of the trace too
+		c.AddExtraInt("binding_selftest_corrupted_rejected", int64(len(lines)))
+		return true
+	}
+	b, err := os.ReadFile(rf)
+	var rep TraceReport
+	if err != nil || json.Unmarshal(bytes.TrimSpace(b), &rep) != nil {
+		c.Internal("%s self-test: no report", job.Module)
+		return false
+	}
+	got := map[float64]bool{}
+	for _, raw := range rep.Bad {
+		var x struct {
+			ID float64 `json:"id"`
+		}
+		json.Unmarshal(raw, &x)
+		got[x.ID] = true
+	}
+	missed := 0
+	for id := range want {
+		if !got[id] {
+			missed++
+		}
+	}
+	c.AddExtraInt("binding_selftest_corrupted_rejected", int64(len(want)-missed))
+	if missed > 0 {
+		c.Internal("%s binding self-test: the specification ACCEPTED %d of %d records in which one recorded field had been corrupted", job.Module, missed, len(want))
+		return false
+	}
+	return true
 }
